@@ -914,6 +914,50 @@ def gen_registry_last_token(seed, mode="loop"):
     return sc
 
 
+def gen_oneshot_rearm(seed, mode="loop"):
+    """C09: a one-shot timer / signal source fires and the handler that receives its event works on the same key: the source is
+    already gone from the set then (count without it, deregistration fails), registering the key again succeeds and that new
+    source stays (it fires in turn)"""
+    r = random.Random(seed * 173 + 149)
+    sc = Sc(mode, "one-shot source re-armed from its own handler seed=%d" % seed)
+    driven_skeleton(sc)
+    M = 1
+    sc.mod(M, "rearm", 0, r.choice([0, 4]))
+    sc.cb(M, "stop", "*", [])
+    ns = r.choice([1000000, 2000000, 1500000])
+    sg = r.choice([10, 12])
+    kind = r.choice(["tmr", "tmr", "sgn"])
+    sc.main += [("reg", M), ("start", M)]
+    if kind == "tmr":
+        first = ("tmr_reg", M, ns, SRC_ONESHOT, sc.ud(), 0)
+        again = lambda: ("tmr_reg", -1, ns, SRC_ONESHOT, sc.ud(), 0)
+        gone = ("tmr_dereg", -1, ns, 0)
+    else:
+        first = ("sgn_reg", M, sg, SRC_ONESHOT, sc.ud())
+        again = lambda: ("sgn_reg", -1, sg, SRC_ONESHOT, sc.ud())
+        gone = ("sgn_dereg", -1, sg)
+    sc.main.append(first)
+    rounds = r.randrange(1, 4)
+    for n in range(rounds):
+        style = r.choice(["rearm", "rearm", "dereg_then_rearm", "count_only"])
+        ops = [("srclen", -1), ("srclen", -1, 2 if kind == "tmr" else 3)]
+        if style == "dereg_then_rearm":
+            ops += [gone, again(), ("srclen", -1)]
+        elif style == "rearm":
+            ops += [again(), ("srclen", -1)]
+            if r.random() < 0.3:
+                ops += [again()]        # present now: -EEXIST
+        sc.cb(M, "evt", n, ops)
+    sc.cb(M, "evt", "*", [("srclen", -1)])
+    steps = []
+    for n in range(rounds + 1):
+        steps.append([("raise", sg)] if kind == "sgn" else [("sleep", 2500)])
+        steps += [[], [], [("srclen", M)]]
+    driven_finish(sc, steps, rng=r)
+    finalize_main(sc)
+    return sc
+
+
 def gen_pill_paused_restart(seed, mode="loop"):
     """C08: a poison pill is accepted, its recipient is paused before the pill is read, the loop stops (a paused module's
     mailbox is discarded there) and runs again, the recipient is resumed and sent more: nothing sent after the pill may reach it"""
